@@ -66,6 +66,8 @@ def catalogue_full():
         cat.append(G.shape_indexed('x', (3, 2), 4, pos, align=False, idx_code=(1, 2)))
         cat.append(G.shape_indexed('x', (3, 2), 8, pos, reg_index=('b', 2, 3)))
         cat.append(G.shape_indexed('sp', (1, 3), 16, pos, indirect=True, endian='little'))
+        cat.append(G.shape_indexed_nbc('x', (2, 2), 3, pos))
+        cat.append(G.shape_indexed_nbc('sp', (5, 3), 6, pos, indirect=True))
         cat.append(G.shape_indexed('sp', (1, 3), 8, pos, indirect=True, reg_index=('a', 1, 1)))
         cat.append(G.shape_enumeration(3, 8, pos))
         cat.append(G.shape_enumeration(0, 4, pos, align=False))
